@@ -233,6 +233,32 @@ def judge(mm, name, j, opts):
     return n, outcome, vs
 
 
+def _site_task(args):
+    idx, k = args
+    from . import c14
+    from ..vse import VSE
+    mm = get_mm()
+    vse = VSE(mm)
+    ok, on, path, ort, via = c14.union_sites(mm)[idx]
+    n = 0
+    vs = []
+    roots = [r for r in c14.roots_for_site(mm, ok, on, path) if root_class(r[0]) is not None and r[0] not in mm.aliases]
+    for alt in ort["items"]:
+        if is_null_type(alt):
+            continue
+        for slabel, v in c14.shapes(mm, vse, alt, k):
+            if slabel.startswith("max-"):
+                continue
+            for rname, rt, rpath in roots:
+                j = c14.embed(mm, vse, rt, rpath, v)
+                if j is None or not mm.valid(j, rt, True):
+                    continue
+                ne, oc, out = judge(mm, rname, j, {"max_dev": 1, "cap_combos": 4})
+                n += ne
+                vs += out
+    return n, vs, vse.states, vse.transitions
+
+
 def run(ctx):
     mm = get_mm()
     res = Result()
@@ -243,13 +269,24 @@ def run(ctx):
             "max_base_n1_limit": 250}
     a, v = explore_roots(ctx, judge, roots, kmin, kmax, opts)
     res.merge_violations(v)
+    import multiprocessing as mp
+    from . import c14
+    nsites = len(c14.union_sites(mm))
+    with mp.get_context("fork").Pool(ctx.workers) as pool:
+        parts = pool.map(_site_task, [(i, 1) for i in range(nsites)], chunksize=2)
+    for n_, vs_, st_, tr_ in parts:
+        a["evals"] += n_
+        a["states"] += st_
+        a["transitions"] += tr_
+        res.merge_violations(vs_)
     res.coverage = {
         "states": a["states"], "transitions": a["transitions"],
         "traces_validated_against_impl": a["evals"], "evaluations": a["evals"],
         "distinct_nontrivial": a["distinct_nt"],
         "rule": "every VSE derivation of every root x every choice of class at union positions (choice-sequence exploration, <=%d non-default "
                 "choices, <=%d sequences per value) x {literals passed, literals left to constructor defaults}; object built with public "
-                "constructors (snake_case kwargs), unstructured, compared for exact equality with MM.nf, then re-structured and re-serialised" % (opts["max_dev"], opts["cap_combos"]),
+                "constructors (snake_case kwargs), unstructured, compared for exact equality with MM.nf, then re-structured and re-serialised; the "
+                "union-site shapes of C14 (single-element and heterogeneous arrays) are further base values" % (opts["max_dev"], opts["cap_combos"]),
         "roots": a["roots"], "bounds": {"min_base_k": kmin, "max_base_k": kmax},
         "outcome_classes": a["outcomes"], "capped_roots": a["capped"], "exhaustive": not a["capped"], "samples": a["samples"],
     }
